@@ -175,7 +175,7 @@ func readEMLFromReader(reader io.Reader) (*netmail.Message, *bytes.Buffer, error
 //   - An error if parsing the headers fails; otherwise, returns nil.
 func parseEMLHeaders(mailHeader *netmail.Header, msg *Msg) error {
 	commonHeaders := []Header{
-		HeaderContentType, HeaderImportance, HeaderInReplyTo, HeaderListUnsubscribe,
+		HeaderImportance, HeaderInReplyTo, HeaderListUnsubscribe,
 		HeaderListUnsubscribePost, HeaderMessageID, HeaderMIMEVersion, HeaderOrganization,
 		HeaderPrecedence, HeaderPriority, HeaderReferences, HeaderSubject, HeaderUserAgent,
 		HeaderXMailer, HeaderXMSMailPriority, HeaderXPriority,
@@ -229,10 +229,6 @@ func parseEMLHeaders(mailHeader *netmail.Header, msg *Msg) error {
 	// Extract common headers
 	for _, header := range commonHeaders {
 		if value := mailHeader.Get(header.String()); value != "" {
-			if strings.EqualFold(header.String(), HeaderContentType.String()) &&
-				strings.HasPrefix(value, TypeMultipartMixed.String()) {
-				continue
-			}
 			msg.SetGenHeader(header, value)
 		}
 	}
@@ -486,14 +482,11 @@ func parseEMLEncoding(mailHeader *netmail.Header, msg *Msg) {
 //   - msg: A pointer to the Msg object to be updated with content type and charset information.
 func parseEMLContentTypeCharset(mailHeader *netmail.Header, msg *Msg) {
 	if value := mailHeader.Get(HeaderContentType.String()); value != "" {
-		contentType, optional := parseMultiPartHeader(value)
+		_, optional := parseMultiPartHeader(value)
 		if charset, ok := optional["charset"]; ok {
 			msg.SetCharset(Charset(charset))
 		}
 		msg.setEncoder()
-		if contentType != "" && !strings.EqualFold(contentType, TypeMultipartMixed.String()) {
-			msg.SetGenHeader(HeaderContentType, contentType)
-		}
 	}
 }
 
